@@ -17,6 +17,10 @@
 //@ fn DAC_VLS::access tu=utils/DAC_VLS.cpp
 //@ fn DAC_VLS::getListLength tu=utils/DAC_VLS.cpp
 //@ fn StringDictionaryRPDAC::ctor sig=IteratorDictString_p
+//@ fn StringDictionaryRPDAC::locateRank
+//@   requires(1)
+//@   ensures(RET == rank)
+//@   assigns()
 //@ fn StringDictionaryRPDAC::locate
 //@   requires(__CPROVER_r_ok(this, sizeof(*this)) && this->elements < ((uint64_t)1 << 32) && __CPROVER_r_ok(str, 1))
 //@   ensures(RET == 0 || (RET >= 1 && RET <= this->elements))
@@ -24,6 +28,7 @@
 //@   loop 1: assigns(left, right, center, cmp)
 //@   loop 1: invariant(1 <= left && left <= right + 1 && right <= this->elements)
 //@   loop 1: decreases(right + 1 - left)
+//@ ob rpdac_locateRank entry=h_rpdac_rank enforce=StringDictionaryRPDAC__locateRank tier=C props=C03 kind=statement
 //@ ob rpdac_locate entry=h_rpdac_locate enforce=StringDictionaryRPDAC__locate replace=RePair__extractStringAndCompareDAC loops tier=P props=C02,C14,C01,C07 kind=statement
 //@ ob rpdac_ctor entry=h_rpdac_ctor tier=B props=C01,C17,C15 kind=statement grid=rpdac defs=-DNEW_ARRAY_CAP=12 timeout=1800 mem=24 replay=rpdac
 //@ structs
@@ -39,6 +44,7 @@ void IteratorDictString__delete(IteratorDictString *it);
 int RePair__extractStringAndCompareDAC(RePair *this, uint id, uchar *str, uint strLen)
 __CPROVER_requires(id >= 1) __CPROVER_ensures(1) __CPROVER_assigns();
 //@ lowered
+void h_rpdac_rank(void) { StringDictionaryRPDAC *d = malloc(sizeof(StringDictionaryRPDAC)); uint r; StringDictionaryRPDAC__locateRank(d, r); REACH_POINT(); }
 void h_rpdac_locate(void) {
   StringDictionaryRPDAC *d = malloc(sizeof(StringDictionaryRPDAC)); __CPROVER_assume(d != NULL);
   uchar *pat = malloc(8); __CPROVER_assume(pat != NULL); uint in_len;
